@@ -708,6 +708,18 @@ func ruleErrorFlow(c *Ctx, rule string, c06, c07, c08 bool) {
 				if calleeIs(c, cs, genPkg, "(*InjectorProviderCallStmt).buildErrorHandlingStatement") {
 					// arg1 is the ident created from the pool's err name, the same ident appended to lhs
 					id := resolve(cs.arg(1))
+					// `var errIdent *ast.Ident` set only for fallible providers and used under `errIdent != nil`: the one non-nil value
+					if ph, isPhi := id.(*ssa.Phi); isPhi {
+						var nonNil []ssa.Value
+						for _, e := range ph.Edges {
+							if !isNilConst(e) {
+								nonNil = append(nonNil, resolve(e))
+							}
+						}
+						if len(nonNil) == 1 {
+							id = nonNil[0]
+						}
+					}
 					for _, a := range appendsIn(L, fn) {
 						if elems, ok := variadicElems(a.call.Common().Args[1]); ok && len(elems) == 1 && resolve(elems[0]) == id {
 							okErr = true
